@@ -190,7 +190,11 @@ class AnalysisFuzz(Bounded):
             frames = []
             for f_ in range(int(rng.integers(0, 7))):
                 n = int(rng.choice([0, 0, 1, 2, 3, 5]))
-                frames.append(Emulsion([SphericalDroplet(rng.random(dim) * 12, float(rng.random() * 2 + 0.1)) for _ in range(n)]))
+                # every third course mixes droplet classes within a frame (a time course is a list of emulsions of any droplets)
+                def mk(j):
+                    p, r = rng.random(dim) * 12, float(rng.random() * 2 + 0.1)
+                    return DiffuseDroplet(p, r, 0.5) if (t % 3 == 1 and j % 2) else SphericalDroplet(p, r)
+                frames.append(Emulsion([mk(j) for j in range(n)]))
             times = sorted(float(x) for x in rng.normal(size=len(frames)) * 3)
             etc = EmulsionTimeCourse(frames, times=times)
             for method in ("overlap", "distance"):
